@@ -5,7 +5,7 @@
   (rule references expanded, alternative constraint sets / repeated definitions as alternatives,
   named patterns bound left to right, temporaries independent, options evaluated against the bindings
   made so far) and of the static errors a schema can contain.  It never looks at the compiler or checker.
-* encoding of a (possibly malformed) `LvsModel` object for the Lean driver
+* encoding of a (possibly malformed) `LvsModel` object and of a schema AST for the Lean driver
 * the user functions given to the real `Checker`, and a step cap for `_match`
 
 AST:
@@ -362,8 +362,108 @@ def enc_name(name):
     return _lst(bytes(c).hex() for c in name)
 
 
+def _enc_sopt(o):
+    if o[0] == 'lit':
+        return 'L' + comp(o[1]).hex()
+    if o[0] == 'pat':
+        return 'P' + o[1]
+    return 'F' + o[1] + '=' + _lst((_enc_sopt(a) for a in o[2]), '*')
+
+
+def enc_schema(schema):
+    """protocol token of a schema AST for the Lean compiler model (NdnModel/Lvs/CProto.lean); literal components
+    are sent as the bytes `Component.from_str` gives, which is what the lark transformer stores in the AST"""
+    rs = []
+    for r in schema['rules']:
+        nm = ','.join(('L' + comp(c[1]).hex()) if c[0] == 'lit' else ('P' if c[0] == 'pat' else 'R') + c[1]
+                      for c in r['name'])
+        cons = _lst(('&'.join(t['pat'] + ':' + '+'.join(_enc_sopt(o) for o in t['opts']) for t in cs)
+                     for cs in r['cons']), '!')
+        rs.append(';'.join([r['id'], nm, cons, _lst(r['sign'])]))
+    return _lst(rs, '|')
+
+
+def enc_symbols(model):
+    """identifiers of the named patterns by tag (the symbol table of a compiled model)"""
+    return _lst(s.ident for s in (model.symbols or []))
+
+
 def enc_env(defined):
     return _lst(sorted(defined))
+
+
+def canon_pool(token, symbols):
+    """a compiled model up to the numbering of nodes and pattern tags: the tree below the start node with
+    named tags replaced by their identifiers, temporary tags by 'TEMP', edges and rule names of a node
+    sorted, signers replaced by the sorted paths of the signer nodes.  (So a rewrite of the compiler that
+    only changes the order in which nodes / tags are numbered does not alarm.)"""
+    ver, start, cnt, ns = token.split('!')
+    cnt = int(cnt)
+    syms = [] if symbols == '.' else symbols.split(',')
+
+    def tagname(t):
+        if t == '~':
+            return '~'
+        t = int(t)
+        return syms[t - 1] if 1 <= t <= cnt and t <= len(syms) else 'TEMP'
+    nodes = []
+    for n in ([] if ns == '.' else ns.split('|')):
+        i, par, rn, ves, pes, sg = n.split(';')
+        ve = [] if ves == '.' else [tuple(e.split(':')) for e in ves.split(',')]
+        pe = []
+        for e in ([] if pes == '.' else pes.split(',')):
+            d, t, c = e.split(':')
+            cl = []
+            for clause in ([] if c == '.' else c.split('&')):
+                ops = []
+                for o in ([] if clause == '_' else clause.split('+')):
+                    v, ot, fn = o.split('/')
+                    if fn != '~':
+                        fid, args = fn.split('=')
+                        fn = fid + '(' + ','.join(a.split('^')[0] + '^' + tagname(a.split('^')[1])
+                                                  for a in ([] if args == '.' else args.split('*'))) + ')'
+                    ops.append((v, tagname(ot), fn))
+                cl.append(tuple(ops))
+            pe.append((d, tagname(t), tuple(cl)))
+        nodes.append({'rules': sorted([] if rn == '.' else rn.split(',')), 've': ve, 'pe': pe,
+                      'sign': [] if sg == '.' else [int(k) for k in sg.split(',')]})
+    paths = {}
+
+    def walk(i, path, depth):
+        if depth > len(nodes) or i >= len(nodes):
+            return
+        paths.setdefault(i, path)
+        for d, v in nodes[i]['ve']:
+            if d != '~':
+                walk(int(d), path + (('v', v),), depth + 1)
+        for d, t, c in nodes[i]['pe']:
+            if d != '~':
+                walk(int(d), path + (('p', t, c),), depth + 1)
+    walk(int(start), (), 0)
+
+    def canon(i, depth):
+        if depth > len(nodes) or i >= len(nodes):
+            return 'DANGLING'
+        n = nodes[i]
+        return (tuple(n['rules']),
+                tuple(sorted(repr((v, canon(int(d), depth + 1))) for d, v in n['ve'] if d != '~')),
+                tuple(sorted(repr((t, c, canon(int(d), depth + 1))) for d, t, c in n['pe'] if d != '~')),
+                tuple(sorted(repr(paths.get(k, ('UNREACHABLE', k))) for k in n['sign'])))
+    import hashlib
+    return ver + '/' + str(cnt) + '/' + ','.join(sorted(syms)) + '/' + hashlib.sha1(repr(canon(int(start), 0)).encode()).hexdigest()
+
+
+def canon_matches(matches, symbols):
+    """match lists as sorted lists with identifiers instead of tag numbers (used when the two node pools are
+    equal only up to numbering, so the order of the matches is not comparable; `#_<node id>`, the name the
+    checker gives a node that ends no rule, becomes `#_`)"""
+    syms = [] if symbols in ('.', None) else symbols.split(',')
+    out = []
+    for outs, err in matches:
+        o2 = sorted([sorted('#_' if (n.startswith('#_') and n.count('#') == 1) else n for n in names), sorted([syms[t - 1] if 1 <= t <= len(syms) else str(t), v] for t, v in ctx)]
+                    for names, ctx in outs)
+        out.append([o2, err])
+    return out
 
 
 def parse_match_answer(res):
